@@ -9,7 +9,7 @@ THEOREMS = ["C13_ctor", "C13_exact", "C13_never_widens", "C13_other_width_refuse
 COQ_IMPORTS = ["RM.ModelBasic", "RMR.RunC13"]
 COQ_FN = "RunC13.run"
 COQ_CASE_TY = "RunC13.case"
-RULE = ("width in {8..256} x operator (12 binary incl. reflected, 4 unary, constructor) x operand kind (same uint "
+RULE = ("width in {8..256} x operator (12 binary incl. reflected, 4 unary, constructor from plain ints and from uint views of every width) x operand kind (same uint "
         "type, other-width uint, plain int) x operands from {0,1,2,3,2^k-1,2^k,2^k+1,max-1,max,random}; "
         "non-trivial = binary operator whose mathematical result is within a factor 4 of the range limit or that "
         "raises; distinct by input JSON")
@@ -42,6 +42,13 @@ def gen_inputs(ctx):
         if r < 0.06:
             yield {"t": "ctor", "w": w, "x": rng.choice([-1, -5, 1 << w, (1 << w) - 1, 0, (1 << w) + 7,
                                                          operand(rng, w), -operand(rng, w)])}
+            continue
+        if r < 0.09:
+            # the constructor applied to a uint VIEW of another (or the same) width: the value decides, not the type
+            w2 = rng.choice(list(UT))
+            m2 = (1 << w2) - 1
+            x = rng.choice([0, 1, (1 << w) - 1, 1 << w, (1 << w) + 1, m2, m2 - 1, operand(rng, w2)])
+            yield {"t": "ctor", "w": w, "x": min(x, m2), "xw": w2}
             continue
         if r < 0.14:
             yield {"t": "un", "w": w, "op": rng.choice(list(UNOPS)), "a": operand(rng, w)}
@@ -90,8 +97,10 @@ def build(inp):
     T = UT[w]
     if inp["t"] == "ctor":
         x = inp["x"]
-        o = obs_of(w, lambda: T(x))
-        return Case(inp, "(CCtor %s %s)" % (cZ(w), cZ(x)), [o], NAMES, nontrivial=True, kind="ctor")
+        arg = UT[inp["xw"]](x) if "xw" in inp else x
+        o = obs_of(w, lambda: T(arg))
+        return Case(inp, "(CCtor %s %s)" % (cZ(w), cZ(x)), [o], NAMES, nontrivial=True,
+                    kind="ctor" + (":from_uint" if "xw" in inp else ""))
     if inp["t"] == "un":
         a = T(inp["a"])
         o = obs_of(w, lambda: UNOPS[inp["op"]](a))
